@@ -282,20 +282,36 @@ def ref_forms(rng, tree, ppath, allfns, g, how_many):
             body = ('app', ('lam', [x], call), [('lam', [], ('c', c))])
             info.update(local=c, wrap='param-shadow')
         elif w == 10:
+            # the reference FOLLOWS a local `let`; the binder is sometimes the name of a module `let` (the repaired half of F17b:
+            # the module context of that `let` must not reach the continuation)
             c = LOCAL_BASE + g.const()
-            body = ('let', 'zz', ('lam', [], ('c', c)), call)
-            info.update(wrap='let-other')
+            bn = pick_binder(rng, 'zz', kind, x)
+            body = ('let', bn, ('lam', [], ('c', c)), call)
+            info.update(wrap='let-other', binder=bn)
         elif w == 11:
-            body = ('let', 'gg', ('lam', [], call), ('app', ('v', 'gg'), []))
-            info.update(wrap='in-let-lambda')
+            # the reference sits IN THE INITIALISER of a local `let` / the body of a local `letrec`; when the binder shares its name
+            # with a module `let` the reference is resolved inside that module (what is left of F17b)
+            bn = pick_binder(rng, 'gg', kind, x)
+            body = ('let', bn, ('lam', [], call), ('app', ('v', bn), []))
+            info.update(wrap='in-let-lambda', binder=bn, shift=bn)
         elif w == 12:
-            body = ('rec', 'gg', ('lam', [], call), ('app', ('v', 'gg'), []))
-            info.update(wrap='in-letrec')
+            bn = pick_binder(rng, 'gg', kind, x)
+            body = ('rec', bn, ('lam', [], call), ('app', ('v', bn), []))
+            info.update(wrap='in-letrec', binder=bn, shift=bn)
         else:
             body = ('app', ('lam', ['yy'], call), [('c', 0)])
             info.update(wrap='in-lambda')
         forms.append((body, info))
     return forms
+
+
+def pick_binder(rng, default, kind, x):
+    """name of a local binder: mostly `default`, sometimes one of LETS (a possible module `let` name), never the referenced name itself"""
+    if rng.below(3) == 0:
+        bn = rng.choice(LETS)
+        if not (kind == 'bare' and x == bn):
+            return bn
+    return default
 
 
 def wildcards(items):
@@ -361,13 +377,18 @@ def pub_uses(items, path=()):
     return out
 
 
-def has_mod_let(items, inside=False):
+def mod_let_context(items, name, path=()):
+    """module path under which convert_expr converts the initialiser / body of a binder called `name`: module `let`s are keyed by their
+    BARE name in module_context_map, the latest one (in flattening order) wins; None when no module `let` has that name"""
+    res = None
     for it in items:
-        if it[0] == 'let' and inside:
-            return True
-        if it[0] == 'mod' and has_mod_let(it[3], True):
-            return True
-    return False
+        if it[0] == 'let' and path and it[1] == name:
+            res = path
+        elif it[0] == 'mod':
+            r = mod_let_context(it[3], name, path + (it[2],))
+            if r is not None:
+                res = r
+    return res
 
 
 def cls_pub_use_private(tree, ppath, info, d):
@@ -399,7 +420,19 @@ def cls_pub_use_private(tree, ppath, info, d):
 
 def oracle(tree, ppath, info, as_let, c):
     """property evaluated on an accepted program: returns (verdict, detail) with verdict in
-    'ok' | 'F8' | 'F9' | 'F17a' | 'F17b' | 'violation:<what>'"""
+    'ok' | 'F8' | 'F9' | 'F17a' | 'F17b' | 'violation:<what>'.
+    Class of F17b (binder-shares-name-with-module-let): the reference sits in the initialiser of a `let` / the body of a `letrec` whose
+    binder has the name of a `let` written inside some module E, what the property forbids from the reference's own position happened,
+    and the same answer is what the property allows for a reference written inside E."""
+    v = oracle_at(tree, ppath, info, as_let, c)
+    if v[0].startswith('violation') and info.get('shift') is not None and info['local'] is None:
+        eff = mod_let_context(tree, info['shift'])
+        if eff is not None and not oracle_at(tree, eff, info, as_let, c)[0].startswith('violation'):
+            return ('F17b', f"{v[0][10:]} ({v[1]}): the binder `{info['shift']}` is also a `let` of module {'::'.join(eff)}")
+    return v
+
+
+def oracle_at(tree, ppath, info, as_let, c):
     ds = decls(tree)
     if info['local'] is not None:
         return ('ok', '') if c == info['local'] else ('violation:local-binding-not-shadowing', f"expected local {info['local']} got {c}")
@@ -411,8 +444,6 @@ def oracle(tree, ppath, info, as_let, c):
     if d['kind'] == 'fn' and not d['pub'] and outside:
         if cls_pub_use_private(tree, ppath, info, d):
             return ('F9', f"private {'::'.join(d['mod'] + (d['name'],))} from {'::'.join(ppath) or '<top>'}")
-        if as_let and has_mod_let(tree):
-            return ('F17b', f"private {'::'.join(d['mod'] + (d['name'],))} from a `let` initialiser at {'::'.join(ppath) or '<top>'}")
         return ('violation:private-member-reached', f"{'::'.join(d['mod'] + (d['name'],))} from {'::'.join(ppath) or '<top>'}")
     if d['kind'] == 'let' and outside:
         return ('F8', f"let {d['name']} of module {'::'.join(d['mod'])} from {'::'.join(ppath) or '<top>'}")
@@ -423,13 +454,13 @@ def oracle(tree, ppath, info, as_let, c):
         cand = None
         if segs in fns:
             cand = fns[segs]
-        elif tuple(ppath) + segs in fns and not as_let:
+        elif tuple(ppath) + segs in fns:
             cand = fns[tuple(ppath) + segs]
         reexport = any(n == segs[-1] for (_, _, names) in pub_uses(tree) for n in names)
         if cand is not None and cand['c'] != c and not reexport:
             return ('violation:path-denotes-other-definition', f"{'::'.join(segs)} denotes {cand['c']} got {c}")
-        if cand is None and not reexport and not (as_let and has_mod_let(tree)):
-            # accepted although the path names nothing: must be the nested-context case (in-letrec resets, so only plain)
+        if cand is None and not reexport:
+            # accepted although the path names nothing
             return ('violation:path-denotes-nothing', '::'.join(segs))
     else:
         nm = info['ref']
@@ -592,7 +623,7 @@ def run(ck):
                 continue
             o = json.loads(l)
             if "witness" in o:
-                witnesses.append((o["witness"], o["tokens"], o["source"], o["expect"]))
+                witnesses.append((o["witness"], o["tokens"], o["source"], o["expect"], o.get("repaired")))
                 continue
             tree = [to_tuple(x) for x in o["tree"]]
             body = to_tuple(o["body"])
@@ -644,10 +675,13 @@ def run(ck):
     # ---- witnesses of the refuted theorems / fixtures: literal programs, replayed on the real compiler and on the model ----
     nw = len(witnesses)
     wit_bad = []
-    for j, (name, toks, src, expect) in enumerate(witnesses):
+    regressed = []   # regression inputs of REPAIRED defects that misbehave again: concrete failing inputs
+    for j, (name, toks, src, expect, repaired) in enumerate(witnesses):
         bi = parse_b(out_i[j].split(" | ")[-1]) if " | " in out_i[j] else {'bad': out_i[j]}
         got = bits_to_float(bi['ok']) if 'ok' in bi else ("private-error" if bi.get('p', 0) > 0 else "error")
-        if got != expect:
+        if got != expect and repaired:
+            regressed.append((name, repaired, src, expect, got))
+        elif got != expect:
             wit_bad.append((name, src, expect, out_i[j]))
         elif model_ok and rc_m == 0 and j < len(out_m) and compare(out_m[j], out_i[j]):
             wit_bad.append((name + " (model differs: %s)" % compare(out_m[j], out_i[j]), src, out_m[j], out_i[j]))
@@ -739,17 +773,21 @@ def run(ck):
     prop_fail = prop_fail + [(None, w, None) for w, _ in ctx_fail] if False else prop_fail
     for (i, verdict, detail) in prop_fail[:5]:
         ck.violation("property fails on the implementation: " + verdict, replay_obj(i, {"detail": detail}))
+    for (name, what, src, expect, got) in regressed[:3]:
+        ck.violation("property fails on the implementation: %s (regression input '%s' of a repaired defect: expected %s, got %s)"
+                     % (what, name, expect, got), {"source": src, "expected": expect, "got": got,
+                                                    "how": "write `source` on one line with newlines as \\n and pipe it to .cache/target/lang/debug/modules_run"})
     for (name, src, expect, got) in wit_bad[:3]:
         ck.broken.append("witness " + name)
         ck.violation("witness/fixture program '%s' no longer behaves as recorded (the theorem of that name in Props/C17.v is about the model, "
                      "the model no longer describes the code)" % name, {"source": src, "expected": expect, "implementation": got}, no_input=True)
-    if disagreements and not prop_fail and not ctx_fail:
+    if disagreements and not prop_fail and not ctx_fail and not regressed:
         i, why, m_, i_ = disagreements[0]
         ck.broken.append("correspondence Modules.Model vs program.rs/convert_qualified_names.rs: " + why)
         ck.violation("model and implementation disagree (%s); no clause of the property fails on the explored inputs" % why,
                      replay_obj(i, {"model": m_, "disagreements": len(disagreements), "kinds": sorted(set(d[1] for d in disagreements))}),
                      no_input=True)
-    if not proved and not prop_fail and not disagreements and not ctx_fail:
+    if not proved and not prop_fail and not disagreements and not ctx_fail and not regressed:
         ck.violation("a proof obligation of Props/C17.v no longer checks", {"broken": ck.broken}, no_input=True)
     return finish(ck)
 
